@@ -53,8 +53,21 @@ def base_formula(rng):
     return F
 
 
+def _explicit_shuffle(F):
+    n, m = F.number_of_variables(), len(list(F))
+    return cnfgen.Shuffle(F, [(-1) ** i for i in range(n)], list(range(n, 0, -1)), list(range(m - 1, -1, -1)))
+
+
+# transformations reachable from the library only (explicit arguments)
+EXTRA_TRANS = [(["shuffle", "explicit-lists"], _explicit_shuffle),
+               (["shuffle", "explicit-flips-only"], lambda F: cnfgen.Shuffle(F, [1] * F.number_of_variables(), "fixed", "fixed")),
+               (["xorcomp", "graph"], lambda F: cnfgen.VariableCompression(
+                   F, G.bipartite_shift(F.number_of_variables(), max(2, F.number_of_variables()), [0, 1]), "xor"))]
+ALL_TRANS = list(H17.TRANS) + EXTRA_TRANS
+
+
 def trans_case(rng, idx):
-    targv, f = H17.TRANS[idx]
+    targv, f = ALL_TRANS[idx]
     seed = rng.randint(0, 10 ** 6)
 
     def oracle():
@@ -214,7 +227,7 @@ def cases(ctx):
     out = [c for c in H05.cases(ctx) if c.suite == "header"]
     out += [c for c in H09.cases(ctx) if c.suite == "header"]
     reps = 6 if tier == "quick" else 60
-    for idx in range(len(H17.TRANS)):
+    for idx in range(len(ALL_TRANS)):
         for _ in range(reps):
             out.append(trans_case(rng, idx))
     for _ in range(100 if tier == "quick" else 2000):
